@@ -636,6 +636,7 @@ fn faults_of(ops: &[Op]) -> Vec<String> {
         .enumerate()
         .filter_map(|(i, o)| match o {
             Op::SetOffset { offset, .. } => Some(format!("#{} reset to {}", i, offset)),
+            Op::WithOffsetMid { offset, .. } => Some(format!("#{} reset to {} (consuming with_offset)", i, offset)),
             Op::NewIter { with_offset: Some(o), .. } => Some(format!("#{} created with offset {}", i, o)),
             Op::SetModeIter { mode, .. } => Some(format!("#{} mode override (iterator) {}", i, mode)),
             Op::SetModeScanner { mode, .. } => Some(format!("#{} mode override (scanner) {}", i, mode)),
